@@ -17,7 +17,9 @@ import time
 VERIF = os.path.dirname(os.path.dirname(os.path.abspath(__file__)))
 REPO = os.environ.get("VERIF_REPO", "/repo")
 CACHE = os.path.join(VERIF, ".cache")
-SCRATCH_ROOT = "/tmp/dmntk-verif"
+SCRATCH_ROOT = os.environ.get("VERIF_SCRATCH", "/tmp/dmntk-verif")
+# experiments against a mutated copy of the repository (bin/try-mutant) write their evidence elsewhere
+EVIDENCE_DIR = os.environ.get("VERIF_EVIDENCE_DIR", os.path.join(VERIF, "evidence"))
 CRATES = {
     "dmntk-common": "common", "dmntk-evaluator": "evaluator", "dmntk-examples": "examples",
     "dmntk-feel": "feel", "dmntk-feel-evaluator": "feel-evaluator",
@@ -331,7 +333,7 @@ class Check:
         self.known_hits.append((finding, what))
 
     def finish(self, extra_cov=None):
-        os.makedirs(os.path.join(VERIF, "evidence"), exist_ok=True)
+        os.makedirs(EVIDENCE_DIR, exist_ok=True)
         wall = time.time() - self.t0
         n_ob = len(self.obligations)
         held = len([o for o in self.obligations if o["status"] in ("holds", "known")])
@@ -371,15 +373,15 @@ class Check:
             "coverage": cov, "assumptions": self.assumptions or ["see coverage.stubs_and_models"],
             "wall_s": round(wall, 2), "violations": len(self.violations),
         }
-        with open(os.path.join(VERIF, "evidence", self.pid + ".json"), "w") as f:
+        with open(os.path.join(EVIDENCE_DIR, self.pid + ".json"), "w") as f:
             json.dump(ev, f, indent=1, default=str)
         for k, what in self.known_hits:
             print("KNOWN-FINDING: property=%s %s" % (self.pid, what), flush=True)
-        rp0 = os.path.join(VERIF, "evidence", self.pid + ".replay.json")
+        rp0 = os.path.join(EVIDENCE_DIR, self.pid + ".replay.json")
         if not self.violations and os.path.exists(rp0):
             os.remove(rp0)
         if self.violations:
-            rp = os.path.join(VERIF, "evidence", self.pid + ".replay.json")
+            rp = os.path.join(EVIDENCE_DIR, self.pid + ".replay.json")
             with open(rp, "w") as f:
                 json.dump(self.violations, f, indent=1, default=str)
             for v in self.violations:
